@@ -278,6 +278,19 @@ func (w *World) checkC14() []Violation {
 					break
 				}
 			}
+			// A scan that reported no error and was not closed by its caller says
+			// "these are all the rows": in a run without faults (contexts that end
+			// are part of the plan, not faults) it must have returned all of them.
+			// In particular a context that ends while rows are still buffered has
+			// to be reported, not answered with a clean end-of-scan.
+			if nerr == 0 && len(w.Plan.Faults) == 0 && r.Op.CloseAt == 0 && r.Op.Abandon == 0 {
+				got, _, end := scanRows(r)
+				if end < len(r.Scan) && r.Scan[end].Err == io.EOF {
+					if want := expectedScan(c, r.Op); len(got) < len(want) {
+						vs = append(vs, w.viol("C14", "ended-silently", "%s: the scan ended with io.EOF and no error after %d of %d rows (context of the scan: %+v)", where, len(got), len(want), r.Op.Ctx))
+					}
+				}
+			}
 			// (Rows returned before a failure are not judged here: after a lost
 			// response the retried "next" request continues behind the lost
 			// chunk - gohbase sends no next_call_seq - which is outside C14.)
